@@ -85,13 +85,21 @@ def _run(ctx, e2e):
             orders = [o for o in orders if o <= 5] or orders[:1]
         order = int(rng.choice(orders))
         data_class = "power-law"
-        if interp == "lsq_poly" and order >= 2 and i % 2:
+        if interp == "lsq_poly" and i % 4 == 3:
+            data_class = "generic"
+        elif interp == "lsq_poly" and order >= 2 and i % 2:
             data_class = "poly3" if order >= 3 else "poly2"
         use_system = system != "triclinic" or bool(i % 2)
         ds = WF.gen_dataset(rng, system=system, nv=nv, data_class=data_class, lattice=bool((i // 2) % 2),
                             components="needed" if use_system else "all-nonzero")
         cfg = WF.gen_settings(rng, ds, interpolator=interp, order=order, use_system=use_system,
                               tmin=float(rng.choice([0, 0, 10, 300])), dt=float(rng.choice([2, 50, 100, 500])))
+        if data_class == "generic":
+            from ..oracles.fph import spectrum_from_lsq
+            order = cfg["elast"]["settings"]["mode_gamma"]["order"]
+            ds.spec = spectrum_from_lsq(ds.volumes, ds.freqs, order, ds.weights, ds.natoms)   # the polynomial a least-squares fit of that order must give
+        if nv > 6 and i % 5 == 0:
+            cfg["qha"]["settings"]["order"] = int(rng.choice([4, 5]))      # QHA's own EoS order; the static pressure stays a cubic fit
         cls = f"{system}|{'lattice' if ds.lattice is not None else 'no-lattice'}|{interp}"
         sample = {"system": system if use_system else None, "interpolator": interp, "order": order, "volumes": nv, "nq": ds.nq, "atoms": ds.natoms,
                   "lattice_block": ds.lattice is not None, "components_in_table": ["c%d%d" % T.VOIGT21[c] for c in ds.columns], "data": data_class,
